@@ -117,7 +117,7 @@ def run(ctx):
     jobs = []
     n = 0
     for desc, A in archives:
-        modes = MODES if (ctx.tier == 'thorough' or desc.startswith('error-path')) else rnd.sample(MODES, 5) + ['v', 'vv']
+        modes = MODES if (ctx.tier == 'thorough' or desc.startswith('error-path')) else rnd.sample(MODES, 8) + ['v', 'vv']
         for mode in sorted(set(modes)):
             if mode[0] == 'p' and 'n' not in mode and desc.startswith('method'):
                 # with a planted method byte the member may be run through a real decompressor: what 'p' then dumps is file
